@@ -23,6 +23,8 @@ R(binascii.crc_hqx, stubs.s_crc_hqx)
 R(struct.pack, stubs.s_pack)
 R(struct.unpack, stubs.s_unpack)
 R(struct.unpack_from, stubs.s_unpack_from)
+R(struct.Struct, stubs.SStruct)
+R(struct.calcsize, struct.calcsize)
 R(socket.inet_ntoa, stubs.s_inet_ntoa)
 R(textwrap.wrap, stubs.s_wrap)
 R(warnings.warn, stubs.s_warn)
